@@ -171,7 +171,7 @@ func c14Immutable(c *core.Ctx) {
 		c.Check(nb == 0, "C14.R2", key+"/no-backend-call", fn.Pos(), "makes no call on the wrapped registry", name+" calls the wrapped registry: something can be deleted through the immutable wrapper")
 		for _, r := range returnsOf(fn) {
 			n := len(r.Results)
-			ok := n > 0 && !facts.IsNilConst(facts.Strip(r.Results[n-1])) && !isZero(r.Results[n-1])
+			ok := n > 0 && !facts.IsNilConst(facts.Resolve(r.Results[n-1])) && !isZero(r.Results[n-1])
 			c.Check(ok, "C14.R2", key+"/returns-error", r.Pos(), "returns a non-nil error", name+" can return a nil error")
 		}
 	}
@@ -257,7 +257,7 @@ func c14Immutable(c *core.Ctx) {
 	// success returns on the tagged path
 	for _, r := range returnsOf(pm) {
 		n := len(r.Results)
-		if n != 2 || !facts.IsNilConst(facts.Strip(r.Results[1])) {
+		if n != 2 || !facts.IsNilConst(facts.Resolve(r.Results[1])) {
 			continue
 		}
 		conds := facts.CondsAt(r.Block())
